@@ -90,6 +90,8 @@ pub struct World<K: SimKey> {
     /// number of WAL versions the model believes were written (fault-free runs)
     pub versions: u64,
     pub writes_since_open: u64,
+    /// a reopen has flipped `pre_create_cas_dirs` away from the creation-time choice (C19)
+    pub pre_create_flipped: bool,
     pub op_index: usize,
     pub set_monitor_expectations: bool,
     /// the stored pre-create choice (set at creation)
@@ -195,6 +197,7 @@ impl<K: SimKey> World<K> {
             exact_files: true,
             versions: 0,
             writes_since_open: 0,
+            pre_create_flipped: false,
             op_index: 0,
             set_monitor_expectations: true,
             created_pre_create: wl.cfg.pre_create,
@@ -567,7 +570,10 @@ impl<K: SimKey> World<K> {
                     }
                 });
                 if let Err(e) = res {
-                    return Err(fail(&["C01", "C18"], "put-failed", i, format!("{} failed without any injected fault: {e}", op.short())));
+                    // after a reopen that flipped pre_create_cas_dirs a failing put also speaks for C19
+                    // ("the choice made at creation is remembered and does not change behaviour")
+                    let props: &[&str] = if self.pre_create_flipped { &["C01", "C18", "C19"] } else { &["C01", "C18"] };
+                    return Err(fail(props, "put-failed", i, format!("{} failed without any injected fault: {e}", op.short())));
                 }
                 self.model = next;
                 if *abort {
@@ -754,6 +760,7 @@ impl<K: SimKey> World<K> {
             Op::ReopenFlipPreCreate => {
                 self.probes.precreate_flips += 1;
                 self.cfg.pre_create = !self.cfg.pre_create;
+                self.pre_create_flipped = true;
                 self.reopen(i)
             }
         }
